@@ -10,6 +10,7 @@ import errno as _errno
 import io
 import os
 import posixpath
+import sys
 
 ERRNO = {
     "ENOENT": _errno.ENOENT, "EACCES": _errno.EACCES, "EISDIR": _errno.EISDIR, "ENOSPC": _errno.ENOSPC,
@@ -54,7 +55,17 @@ class SimRaw(io.RawIOBase):
         return False
 
     def fileno(self):
-        raise io.UnsupportedOperation("simulated file has no descriptor")
+        # a simulated descriptor, usable with the patched os.fstat/os.read/os.write/...; never a
+        # real one
+        if self.role == "STDOUT":
+            raise io.UnsupportedOperation("simulated stdout has no descriptor")
+        fd = getattr(self, "_fd_owned", None)
+        if fd is None:
+            fd = self.fs.next_fd
+            self.fs.next_fd += 1
+            self.fs.fds[fd] = self
+            self._fd_owned = fd
+        return fd
 
     # -- data ------------------------------------------------------------------------------
     def _data(self) -> bytearray:
@@ -218,7 +229,10 @@ class SimFS:
         if isinstance(file, int) and file in self.fds:
             return self._open_fd(file, mode, buffering, encoding, errors, newline, closefd)
         if not self.is_sim(file):
-            self.passthrough.append(repr(file))
+            # absolute real paths: reading them is harmless (linecache reads source files when a
+            # warning or traceback is formatted); writing to them is outside the model
+            if set(mode) & set("wax+"):
+                self.passthrough.append(repr(file))
             return self._real_open(file, mode, buffering, encoding, errors, newline, closefd, opener)
         path = self.norm(file)
         role = self.role_of(path)
@@ -514,6 +528,11 @@ class Patches:
         fs = self.fs
         self._set(builtins, "open", fs.open)
         self._set(io, "open", fs.open)
+        # modules that captured builtins.open at import time
+        for modname, attr in (("tokenize", "_builtin_open"), ("_pyio", "open")):
+            mod = sys.modules.get(modname)
+            if mod is not None and hasattr(mod, attr):
+                self._set(mod, attr, fs.open)
 
         def wrap2(real, sim):
             def f(a, b, *args, **kw):
